@@ -201,7 +201,10 @@ class Gen:
         if k < 0.55 and "alt" in self.feats:
             n = r.randint(2, min(3, size))
             parts = self.split(size - 1, n)
-            return ("alt", [self.re(p, qdepth) for p in parts])
+            branches = [self.re(p, qdepth) for p in parts]
+            if r.random() < 0.12:
+                branches[r.randrange(len(branches))] = ("seq", [])      # an empty alternative
+            return ("alt", branches)
         if k < 0.8 and "quant" in self.feats and qdepth < self.max_qdepth:
             mn, mx = self.bounds()
             greedy = not ("reluctant" in self.feats and r.random() < 0.35)
@@ -352,3 +355,26 @@ def add_brefs(rng, node, prob=0.35):
     if rng.random() < prob:
         return ("seq", [node, ("bref", 1)])
     return node
+
+
+def shaped(rng, alphabet="abc"):
+    """X-repeat, optional / alternative middle, X again: the shapes on which the disjointness
+    reasoning of the optimiser and the give-back of repeats matter"""
+    a = rng.choice(alphabet)
+    others = [c for c in alphabet if c != a] or [a]
+    x = rng.choice([("chr", a), ("cls", False, [("c", a), ("c", rng.choice(alphabet))], None), ("dot",),
+                    ("cls", False, [("c", a)], None)])
+    rep = ("q", x, *rng.choice([(0, None), (1, None), (0, 2), (1, 3), (2, None), (0, 1)]), rng.random() < 0.75)
+    def word(k):
+        return ("seq", [("chr", rng.choice(others)) for _ in range(k)]) if k != 1 else ("chr", rng.choice(others))
+    mid_body = rng.choice([("alt", [word(1), word(2)]), ("alt", [word(2), word(1)]), word(1), word(2),
+                           ("alt", [word(1), ("seq", [])]), ("alt", [("seq", []), word(1)]),
+                           ("alt", [("chr", a), word(2)]), ("grp", ("alt", [word(1), word(2)]))])
+    mid = rng.choice([("q", mid_body, 0, 1, True), ("q", mid_body, 0, 1, False), ("q", mid_body, 0, None, True),
+                      mid_body, ("q", mid_body, 0, 2, False), ("nc", mid_body), ("bol",), ("eol",), ("seq", [])])
+    tail = rng.choice([("chr", a), ("chr", rng.choice(others)), ("eol",), ("seq", [("chr", a), ("chr", a)]),
+                       ("cls", False, [("c", a)], None)])
+    parts = [rep, mid, tail]
+    if rng.random() < 0.3:
+        parts.insert(0, rng.choice([("bol",), ("chr", rng.choice(alphabet)), ("grp", ("chr", rng.choice(alphabet)))]))
+    return ("seq", parts)
